@@ -29,7 +29,7 @@ Theorem C11_terminates_no_deadlock :
     0 < nworkers -> 0 < qcap ->
     forall s0 sched,
       let s := brun o c nd items stopmode qcap (binit items nworkers s0) sched in
-      mpc s <> MRet -> exists t, t <> TCancel /\ bstep o c nd items stopmode qcap s t <> None.
+      mpc s <> MRet -> exists t, t <> TCancel /\ t <> TNote /\ bstep o c nd items stopmode qcap s t <> None.
 Proof. exact C11_terminates_no_deadlock_glue. Qed.
 Print Assumptions C11_terminates_no_deadlock.
 
